@@ -947,6 +947,78 @@ def judge_rescale_oracle(inp, obs, lr):
     return None
 
 
+# ------------------------------------------------------------------------------------------------
+# S3d: the locus a = <x1 - x2, x1 - x2> = 0 of Segment._compute_aux_data (known finding C12-segment-a-zero)
+# ------------------------------------------------------------------------------------------------
+def gen_a_zero(rng, n):
+    """pairs of points whose STORED representatives have a lightlike (or nearly lightlike) difference, and controls"""
+    for i in range(n):
+        dim = rng.choice([2, 2, 3, 4])
+        x1 = fball_h(rng, 1, dim)[0]
+        ideal = rng.random() < 0.3
+        x2 = fball_h(rng, 1, dim)[0]
+        if ideal:
+            nrm = math.sqrt(sum(t * t for t in x2[1:]))
+            x2 = [1.0] + [t / nrm for t in x2[1:]]
+        eps = rng.choice([0.0, 0.0, 1e-16, 1e-14, 1e-12, 1e-10, 1e-8, 1e-4, 1e-2, 0.3])
+        yield {"dim": dim, "x1": x1, "x2": x2, "ideal": ideal, "root": rng.choice([-1, 1]), "eps": eps * rng.choice([-1, 1]),
+               "scale": flam(rng, 1)[0], "integers": False}
+    # the integer example of the finding
+    yield {"dim": 2, "x1": [2.0, 1.0, 0.0], "x2": [3.0, 1.0, 1.0], "ideal": False, "root": 0, "eps": 0.0, "scale": 1.0, "integers": True}
+
+
+def _mk(x, y):
+    return -x[0] * y[0] + float(np.dot(x[1:], y[1:]))
+
+
+def _a_zero_reps(inp):
+    x1, x2 = np.array(inp["x1"]), np.array(inp["x2"])
+    if inp["integers"]:
+        return x1, x2
+    m11, m12, m22 = _mk(x1, x1), _mk(x1, x2), _mk(x2, x2)
+    # t with <x1 - t x2, x1 - t x2> = 0
+    if inp["ideal"]:
+        t = m11 / (2 * m12)
+    else:
+        t = (m12 + inp["root"] * math.sqrt(max(m12 * m12 - m11 * m22, 0.0))) / m22
+    t *= (1 + inp["eps"])
+    return x1 * inp["scale"], x2 * (t * inp["scale"])
+
+
+def _a_rel(y1, y2):
+    m11, m12, m22 = _mk(y1, y1), _mk(y1, y2), _mk(y2, y2)
+    return abs(m11 - 2 * m12 + m22) / (abs(m11) + 2 * abs(m12) + abs(m22))
+
+
+def run_a_zero(inp):
+    y1, y2 = _a_zero_reps(inp)
+    # reference: the same two points with generic representatives
+    ref = H.Segment(H.Point(np.array(inp["x1"]) * 1.37), H.Point(np.array(inp["x2"]) * (-0.61 if not inp["integers"] else 2.0)))
+    r = np.asarray(ref.ideal_endpoint_coords("klein"), float)
+    out = {"a_rel": _a_rel(y1, y2), "ref": r.tolist()}
+    try:
+        seg = H.Segment(H.Point(y1), H.Point(y2))
+        g = np.asarray(seg.ideal_endpoint_coords("klein"), float)
+        out["got"] = g.tolist()
+        out["err"] = _unordered_err(g, r) if finite(g) else float("inf")
+    except Exception as ex:  # noqa: BLE001
+        out["got"] = "%s: %s" % (type(ex).__name__, str(ex)[:100])
+        out["err"] = float("inf")
+    return out
+
+
+def judge_a_zero(inp, obs, lr):
+    if "exc" in obs:
+        return {"expected": "ideal endpoints", "observed": obs, "tags": {"exc": obs["exc"]}}
+    if not (obs["err"] <= 1e-6):
+        on_locus = bool(obs["a_rel"] < 1e-6)
+        return {"expected": {"ideal endpoints (Klein, unordered) of the same segment with generic representatives": obs["ref"]},
+                "observed": {"ideal endpoints": obs["got"], "a/(|m11|+2|m12|+|m22|)": obs["a_rel"]},
+                "call_site": "Segment._compute_aux_data",
+                "tags": {"call_site": "Segment._compute_aux_data", "segment_a_zero": on_locus}}
+    return None
+
+
 CLAUSES = [
     Clause("numpy_tables_corr", "corr", gen_numpy, run_numpy, judge_numpy, lean=lean_numpy, site="numpy.can_cast / asarray / result_type",
            budget={"quick": 1, "thorough": 1},
@@ -968,6 +1040,9 @@ CLAUSES = [
            what="every entry point x every packaging of the same value: floating dtype, allclose to the reference packaging, inverse / eigenvalues / trigonometry / distance / origin_to succeed"),
     Clause("examples_oracle", "oracle", gen_examples, run_examples, judge_examples, site="README / docstring examples",
            budget={"quick": 1, "thorough": 1}, what="every ```python block of frontpage_doc.md and of the module docstrings runs (Agg backend)"),
+    Clause("segment_a_zero_oracle", "oracle", gen_a_zero, run_a_zero, judge_a_zero, site="Segment._compute_aux_data",
+           budget={"quick": 40, "thorough": 600},
+           what="the locus where the difference of the two STORED representatives is lightlike (a = 0 in the quadratic) and its neighbourhood (relative |a| from 0 to 0.3), interior and ideal second endpoints, plus the integer example Point([2,1,0]), Point([3,1,1]): ideal endpoints vs the same segment with generic representatives; failures with relative |a| < 1e-6 carry the tag segment_a_zero (known finding), any other failure is a violation"),
     Clause("rescale_oracle", "oracle", gen_rescale_oracle, run_rescale_oracle, judge_rescale_oracle, site="hyperbolic geometric outputs",
            budget={"quick": 120, "thorough": 3000},
            what="X vs lambda.X (independent per-unit lambda in +-[0.1,10], composite shapes, dims 2-4): coords in every model, distances, segments' ideal endpoints and circle parameters, tangent directions, point_along, origin_to, isometries as projective maps (dim 2), polygons, images under transformations"),
